@@ -156,7 +156,7 @@ pub fn judge(root: &Path, c: &Case) -> Result<(), (String, String)> {
     }
     let before = snapshot(root);
     let world = trace_world(&[root]);
-    let op = Op { kind: c.op, key: key.clone(), val: Val::new("payload", 3, 3, 17), pop: Pop::Value, nosy: false };
+    let op = Op { kind: c.op, key: key.clone(), val: Val::new("payload", 3, 3, 17), pop: Pop::Value, nosy: false , link_from: None};
     let (res, ev) = traced(&world, || {
         script_rng(true, 1);
         let h = match c.fe {
